@@ -55,6 +55,12 @@ def coq_call(c):
         return "CFunc %s" % a
     if k == "exit":
         return "CExit %s" % a
+    if k == "echo":
+        return "CEcho %s" % a
+    if k == "pwd":
+        return "CPwd %s" % a
+    if k == "unset":
+        return "CUnset %s" % a
     raise ValueError(k)
 
 
@@ -206,7 +212,7 @@ def run(ctx):
     if not binp:
         return
     ctx.rule = ("code leg: histories of 2..8 calls of the modelled builtins (set, shift, getopts, OPTIND/OPTARG assignments, pushd/popd/dirs, "
-                "wait with background jobs, break/continue in a two-level loop and outside, return in a function and outside, exit) with printable-ASCII "
+                "wait with background jobs, echo, pwd, unset (flags, names, name[sub]), break/continue in a two-level loop and outside, return in a function and outside, exit) with printable-ASCII "
                 "arguments biased to negative/huge/malformed numbers, option groups, `--`, `-`, `+`, empty strings; after every call the program reports "
                 "$? $- OPTIND OPTARG x y PWD $! \"$@\" and the stdout of the call. search: every builtin name x 0..11 odd arguments in 17 calling contexts "
                 "after 16 preludes with repeated calls and changing parameters; ~330 statement templates x ~330 word forms in the five variants; the "
@@ -226,8 +232,30 @@ def run(ctx):
 
 
 def replay(ctx, obj):
-    print(json.dumps(obj, indent=1))
-    return 0
+    """re-run the failing programs of a replay file against the current tree"""
+    binp = ctx.go_build("c28")
+    ws = []
+    for i, f in enumerate(obj.get("failures") or []):
+        inp = f.get("input") or {}
+        src = inp.get("program") or inp.get("src")
+        if src is None or inp.get("stream") == "new":
+            continue
+        ws.append({"ID": "r%d" % i, "Lang": inp.get("lang") or "bash", "Src": src})
+    if not binp or not ws:
+        print(json.dumps(obj, indent=1)[:4000])
+        return 0 if not obj.get("failures") else 1
+    path = os.path.join(ROOT, "build", "c28_replay.jsonl")
+    with open(path, "w") as f:
+        for w in ws:
+            f.write(json.dumps(w) + "\n")
+    rc, rows, err = ctx.jsonl([binp, "witness", "-in", path], timeout=600)
+    os.remove(path)
+    bad = 0
+    for r in rows:
+        if "id" in r:
+            print("%s panic=%s msg=%s where=%s :: %s" % (r["id"], r["panic"], r.get("msg"), r.get("where"), r["src"][:200].replace("\n", "\\n")))
+            bad += 1 if r["panic"] else 0
+    return 1 if bad else 0
 
 
 META = {
